@@ -1067,9 +1067,9 @@ func (interp *Interpreter) cfg(root *node, sc *scope, importPath, pkgName string
 				// by constOp and available in n.rval. Nothing else to do at execution.
 				n.gen = nop
 				n.findex = notInFrame
-			case n.anc.kind == assignStmt && n.anc.action == aAssign && n.anc.nleft == 1:
+			case n.anc.kind == assignStmt && n.anc.action == aAssign && n.anc.nleft == 1 && !isBlank(n.anc.child[childPos(n)-n.anc.nright]):
 				// To avoid a copy in frame, if the result is to be assigned, store it directly
-				// at the frame location of destination.
+				// at the frame location of destination (the blank identifier has none yet).
 				dest := n.anc.child[childPos(n)-n.anc.nright]
 				n.typ = dest.typ
 				n.findex = dest.findex
